@@ -261,26 +261,74 @@ func SplitDgrams(s string) ([][]byte, error) {
 type KV struct{ K, V []byte }
 
 // Status is the abstract content of a server status (Lean: Swat4.GS1Spec.Status).
+//
+// IDs and Wire are optional.  IDs[i] is the index of Players[i] on the wire (`key_<id>`); nil means
+// 0,1,2,… in the listed order.  Wire is the order in which the pairs are sent, as indexes into the
+// canonical pair list (Lean: GS1Spec.items — server fields, the players one after another as listed,
+// the objectives); nil means the canonical order.
 type Status struct {
 	Fields     []KV
 	Players    [][]KV
 	Objectives []KV
+	IDs        []int
+	Wire       []int
 }
 
-// Flat is the field sequence n1,v1,n2,v2,…: server fields, then players one after another
-// (`key_i`), then objectives (`obj_name`).
-func (s Status) Flat() [][]byte {
-	var f [][]byte
+// ID is the wire index of Players[i].
+func (s Status) ID(i int) int {
+	if s.IDs != nil {
+		return s.IDs[i]
+	}
+	return i
+}
+
+// pairClass tells which list a canonical pair belongs to: -1 server field, -2 objective, i ≥ 0 player Players[i].
+func (s Status) pairClasses() []int {
+	var c []int
+	for range s.Fields {
+		c = append(c, -1)
+	}
+	for i, p := range s.Players {
+		for range p {
+			c = append(c, i)
+		}
+	}
+	for range s.Objectives {
+		c = append(c, -2)
+	}
+	return c
+}
+
+// pairs is the canonical pair list (wire name, value): Lean GS1Spec.items.
+func (s Status) pairs() [][2][]byte {
+	var f [][2][]byte
 	for _, kv := range s.Fields {
-		f = append(f, kv.K, kv.V)
+		f = append(f, [2][]byte{kv.K, kv.V})
 	}
 	for i, p := range s.Players {
 		for _, kv := range p {
-			f = append(f, []byte(string(kv.K)+"_"+strconv.Itoa(i)), kv.V)
+			f = append(f, [2][]byte{[]byte(string(kv.K) + "_" + strconv.Itoa(s.ID(i))), kv.V})
 		}
 	}
 	for _, kv := range s.Objectives {
-		f = append(f, []byte("obj_"+string(kv.K)), kv.V)
+		f = append(f, [2][]byte{[]byte("obj_" + string(kv.K)), kv.V})
+	}
+	return f
+}
+
+// Flat is the field sequence n1,v1,n2,v2,…: server fields, then players one after another
+// (`key_i`), then objectives (`obj_name`) — or, when Wire is set, the same pairs in that order.
+func (s Status) Flat() [][]byte {
+	ps := s.pairs()
+	var f [][]byte
+	if s.Wire != nil {
+		for _, j := range s.Wire {
+			f = append(f, ps[j][0], ps[j][1])
+		}
+		return f
+	}
+	for _, p := range ps {
+		f = append(f, p[0], p[1])
 	}
 	return f
 }
@@ -377,6 +425,109 @@ func (s Status) Tokens() []string {
 		players = strings.Join(ps, "|")
 	}
 	return []string{renderKVs(s.Fields), players, renderKVs(s.Objectives)}
+}
+
+// HasWire reports whether the status carries explicit indexes or a wire order (line format `decw`).
+func (s Status) HasWire() bool { return s.IDs != nil || s.Wire != nil }
+
+// TokensW renders the abstract status with explicit player indexes and the wire order:
+// <fields> <id=kvs|id=kvs|…> <objectives> <wire>.
+func (s Status) TokensW() []string {
+	players := "."
+	if len(s.Players) > 0 {
+		ps := make([]string, len(s.Players))
+		for i, p := range s.Players {
+			ps[i] = strconv.Itoa(s.ID(i)) + "=" + renderKVs(p)
+		}
+		players = strings.Join(ps, "|")
+	}
+	wire := s.Wire
+	if wire == nil {
+		wire = make([]int, len(s.pairs()))
+		for i := range wire {
+			wire[i] = i
+		}
+	}
+	return []string{renderKVs(s.Fields), players, renderKVs(s.Objectives), IntsTok(wire)}
+}
+
+// RandWire gives the status explicit player indexes — contiguous but listed out of order, with gaps
+// (0, 2, 7), or huge ones up to MaxInt64 — and a random wire order: an interleaving of the pairs that
+// keeps the relative order of the server fields, of the objectives and of each single player's pairs
+// (Lean: GS1Spec.WireOf), so that the pairs of different players, fields and objectives mingle.
+func RandWire(rng interface{ Intn(int) int }, s Status) Status {
+	n := len(s.Players)
+	ids := make([]int, n)
+	switch rng.Intn(4) {
+	case 0: // contiguous
+		for i := range ids {
+			ids[i] = i
+		}
+	case 1: // contiguous from a random base
+		base := rng.Intn(5)
+		for i := range ids {
+			ids[i] = base + i
+		}
+	default: // gaps
+		cur := rng.Intn(3)
+		for i := range ids {
+			ids[i] = cur
+			step := 1 + rng.Intn(4)
+			if rng.Intn(6) == 0 {
+				step += rng.Intn(1000)
+			}
+			cur += step
+		}
+		if n > 0 && rng.Intn(4) == 0 { // the largest one close to the top of `int`
+			ids[n-1] = []int{1<<31 - 1, 1 << 31, 1 << 32, 1<<63 - 1}[rng.Intn(4)]
+			if n > 1 && ids[n-1] <= ids[n-2] {
+				ids[n-1] = ids[n-2] + 1
+			}
+		}
+	}
+	// listing order of the players: ascending, descending or shuffled (ids travel with their player)
+	switch rng.Intn(4) {
+	case 0:
+	case 1:
+		for i, j := 0, n-1; i < j; i, j = i+1, j-1 {
+			ids[i], ids[j] = ids[j], ids[i]
+		}
+	default:
+		for i := n - 1; i > 0; i-- {
+			j := rng.Intn(i + 1)
+			ids[i], ids[j] = ids[j], ids[i]
+		}
+	}
+	out := s
+	out.IDs = ids
+	classes := s.pairClasses()
+	// positions of the canonical pairs, by class, in their own order
+	next := map[int][]int{}
+	for j, c := range classes {
+		next[c] = append(next[c], j)
+	}
+	slots := append([]int{}, classes...)
+	switch rng.Intn(4) {
+	case 0: // canonical order
+	case 1: // only the player pairs mingle; fields first, objectives last
+		lo, hi := len(s.Fields), len(classes)-len(s.Objectives)
+		for i := hi - 1; i > lo; i-- {
+			j := lo + rng.Intn(i-lo+1)
+			slots[i], slots[j] = slots[j], slots[i]
+		}
+	default: // everything mingles
+		for i := len(slots) - 1; i > 0; i-- {
+			j := rng.Intn(i + 1)
+			slots[i], slots[j] = slots[j], slots[i]
+		}
+	}
+	wire := make([]int, len(slots))
+	for i, c := range slots {
+		wire[i] = next[c][0]
+		next[c] = next[c][1:]
+	}
+	out.Wire = wire
+	return out
 }
 
 func IntsTok(xs []int) string {
